@@ -136,8 +136,8 @@ def _exchange(ctx, version, methods, kinds, deep):
                                      version=aiohttp.HttpVersion10 if version == "1.0" else aiohttp.HttpVersion11)
 
     session = loop.run_until_complete(mk())
-    cut_c = ctx.pick("cut_request_bytes", [0, 1, 17, 40, 10 ** 6] + ([2, 16, 18, 64, 200, 2100] if deep else []))
-    cut_s = ctx.pick("cut_response_bytes", [0, 1, 17, 40, 90, 10 ** 6] + ([2, 16, 18, 64, 130, 150, 2100, 65600] if deep else []))
+    cut_c = ctx.pick("cut_request_bytes", [0, 1, 17, 40, 10 ** 6] + ([200, 2100] if deep else []))
+    cut_s = ctx.pick("cut_response_bytes", [0, 1, 17, 40, 90, 10 ** 6] + ([150, 2100, 65600] if deep else []))
 
     def pump():
         moved = False
@@ -332,4 +332,4 @@ REQUIRED_OUTCOMES = ("1.1:reused", "1.1:new-conn", "1.0:")
 def bounds(tier):
     return {"product": "version {1.0,1.1} x method {GET,HEAD,POST,PUT} x request body {none, bytes, async stream, json, form} x Expect: 100-continue x request cookie x Connection {absent, close, keep-alive} x status {200,204,304,404} x response body {empty, bytes, chunked stream, stream of unknown length, json, file} x force_close x 5 request cuts x 6 response cuts - complete",
             "second_request": "a GET on the same session after the first exchange",
-            "thorough": "additionally response body sizes {5, 2047, 2048, 2049, 70000}, request body sizes {4, 2049, 70000}, 11 request cuts, 14 response cuts"}
+            "thorough": "additionally response body sizes {5, 2047, 2048, 2049, 70000}, request body sizes {4, 2049, 70000}, 7 request cuts, 9 response cuts; every job runs the full product (incl. Expect / cookie / json / form)"}
